@@ -99,11 +99,10 @@ class PettingZooVecEnv:
         passed_actions_list = [[] for _ in list(actions.values())[0]]
         for env_idx, _ in enumerate(list(actions.values())[0]):
             for possible_agent in self.agents:
-                action = (
-                    int(actions[possible_agent][env_idx])
-                    if np.isscalar(actions[possible_agent][env_idx])
-                    else actions[possible_agent][env_idx]
-                )
+                action = actions[possible_agent][env_idx]
+                # Discrete actions travel as python ints; continuous scalars must keep their value
+                if isinstance(action, (int, np.integer)):
+                    action = int(action)
                 passed_actions_list[env_idx].append(action)
         assert (
             len(passed_actions_list) == self.num_envs
